@@ -102,3 +102,16 @@ def library_assumptions():
     if squeeze(cp._optcre.pattern) != r'(?P<option>.*?)\s*(?P<vi>=|:)\s*(?P<value>.*)$': bad.append('option pattern %r' % squeeze(cp._optcre.pattern))
     if cp.NONSPACECRE.pattern != r'\S': bad.append('NONSPACECRE %r' % cp.NONSPACECRE.pattern)
     return bad
+
+
+def check_ini(ctx, n, tag):
+    """model/Ini.v against the raw parser of the repository on n generated files; returns (disagreements, stats)"""
+    g = ctx['rng']; dis = []
+    for b in library_assumptions(): dis.append({'case': None, 'what': 'configparser differs from what model/Ini.v restates: ' + b})
+    inis = [{'kind': 'ini', 'lines': gen_ini_lines(g)} for _ in range(n)]
+    res = sc.eval_results(tag, PRE_INI, ['(run_ini %s)' % coq_lines(c['lines']) for c in inis], chunk=100 if n > 200 else 40)
+    acc = 0
+    for c, zs in zip(inis, res):
+        m = dec_ini(zs); im = impl_ini(c['lines']); acc += m is not None
+        if not compare(m, im): dis.append({'case': c, 'what': 'the lines %r: model %r, parser %r' % (c['lines'], m, im)})
+    return dis, {'ini_files': n, 'ini_accepted': acc, 'ini_with_continuation': sum(1 for c in inis if any(l[:1] in (' ', '\t') and l.strip() for l in c['lines']))}, inis
